@@ -10,6 +10,7 @@
 
 #include "align/tab_column.h"
 #include "braces.h"
+#include "char_table.h"
 #include "indent.h"
 #include "prototypes.h"
 #include "reindent_line.h"
@@ -1065,9 +1066,19 @@ void output_text(FILE *pfile)
              * until the output phase.
              */
 
-            if (pc->GetColumn() < cpd.column)
+            size_t min_col = cpd.column;
+
+            // two words never touch, whatever the alignment and indent passes computed
+            if (  cpd.last_char > 0
+               && CharTable::IsKw2(cpd.last_char)
+               && CharTable::IsKw1(pc->GetStr()[0]))
             {
-               reindent_line(pc, cpd.column);
+               min_col++;
+            }
+
+            if (pc->GetColumn() < min_col)
+            {
+               reindent_line(pc, min_col);
             }
             // not the first item on a line
             Chunk *prev = pc->GetPrev();
